@@ -245,7 +245,7 @@ theorem subextproj_closed (d : R) (tw : Bool) (p q : Ext R) (hp : ecmIsValidext 
   obtain ⟨h1, h2⟩ := negExt_valid d tw q hq hqq
   exact addextproj_closed d tw p _ hp hpq h1 h2
 
-/-- `add P P ~ double P` -/
+/-- `add P P ~ double P` (both formulas are unified; informative wherever neither triple is zero) -/
 theorem add_self_double (d : R) (tw : Bool) (p : Pt R) (hp : ecmIsValid d tw p) :
     ProjEq (ecmAdd d tw p p) (ecmDouble d tw p) := by
   obtain ⟨X1, Y1, Z1⟩ := p
@@ -261,7 +261,8 @@ theorem dblext_double (d : R) (tw : Bool) (p : Pt R) (hp : ecmIsValid d tw p) :
   · exact dblext_double_a1 d X1 Y1 Z1 hp
   · exact dblext_double_tw d X1 Y1 Z1 hp
 
-/-- `addext ~ add` (on the projections) -/
+/-- `addext ~ add` (on the projections): equal as projective points, or `addext` degenerate (the zero
+triple, see `addext_self_zero`; then the statement is vacuous) -/
 theorem addext_add (d : R) (tw : Bool) (p q : Ext R) (hp : ecmIsValidext d tw p) (hpq : OnQuadric p)
     (hq : ecmIsValidext d tw q) (hqq : OnQuadric q) :
     ProjEq (ecmAddext d tw p q).toProj (ecmAdd d tw p.toProj q.toProj) := by
@@ -313,14 +314,34 @@ theorem suyama_generator_on_curve (t : R) (h3 : ((3 : Nat) : R) * t = 1) :
     suyamaIsValid (suyamaConsts t).1 (suyamaConsts t).2.1 (suyamaConsts t).2.2.1 (suyamaConsts t).2.2.2
       ⟨(suyamaConsts t).2.2.1, (suyamaConsts t).2.2.2, 1⟩ := suyama_generator_valid t h3
 
-/-- `params_point` followed by `twisted_from_point` (as `ecm()` composes them): the generator lies on
-the a = -1 curve with the returned `d`, whenever the inverse taken by `twisted_from_point` exists. -/
-theorem params_point_on_curve (inv : R → R) (a b gx gy : R) (pt : Pt R) :
-    let g := suyamaParamsPoint inv a b gx gy pt
-    (g.x * g.x * (g.y * g.y)) * inv (g.x * g.x * (g.y * g.y)) = 1 →
-    ecmIsValid (ecmTwistedFromPoint inv 0 true g) true g := by
-  intro g h
-  exact twisted_from_point_valid inv 0 true g h
+/-- `params_point` followed by `twisted_from_point` (as `ecm()` composes them): the translated
+generator `suyamaParamsPoint ..` lies on the a = -1 curve with the `d` that the translated
+`ecmTwistedFromPoint` computes from it, whenever the inverse taken by `twisted_from_point` exists.
+(The membership itself holds for any point with invertible `x²y²`: `d` is defined from the point; what
+is specific to the Suyama family — `d` depending on σ only, torsion Z/12 — is not part of C15.) -/
+theorem params_point_on_curve (inv : R → R) (a b gx gy : R) (pt : Pt R)
+    (h : ((suyamaParamsPoint inv a b gx gy pt).x * (suyamaParamsPoint inv a b gx gy pt).x *
+          ((suyamaParamsPoint inv a b gx gy pt).y * (suyamaParamsPoint inv a b gx gy pt).y)) *
+        inv ((suyamaParamsPoint inv a b gx gy pt).x * (suyamaParamsPoint inv a b gx gy pt).x *
+          ((suyamaParamsPoint inv a b gx gy pt).y * (suyamaParamsPoint inv a b gx gy pt).y)) = 1) :
+    ecmIsValid (ecmTwistedFromPoint inv 0 true (suyamaParamsPoint inv a b gx gy pt)) true
+      (suyamaParamsPoint inv a b gx gy pt) :=
+  twisted_from_point_valid inv 0 true _ h
+
+/-- `Suyama11::params`: the returned `(σ, r)` satisfy `σ = 72z/(3x+z) - 1`, `r = 432 y z/(3x+z)²`
+(denominators cleared), whenever the inverse it takes exists. -/
+theorem suyama_params_spec (inv : R → R) (a b gx gy : R) (pt : Pt R)
+    (hinv : ((pt.z + pt.x + (pt.x + pt.x)) * (pt.z + pt.x + (pt.x + pt.x))) *
+      inv ((pt.z + pt.x + (pt.x + pt.x)) * (pt.z + pt.x + (pt.x + pt.x))) = 1) :
+    ((suyamaParams inv a b gx gy pt).1 + 1) * (3 * pt.x + pt.z) = 72 * pt.z ∧
+    (suyamaParams inv a b gx gy pt).2 * ((3 * pt.x + pt.z) * (3 * pt.x + pt.z)) = 432 * (pt.y * pt.z) :=
+  suyama_params_rel inv a b gx gy pt hinv
+
+/-- Incompleteness of the dedicated extended addition, stated so that the agreement theorems are not
+over-read: on equal arguments `addext` returns the zero quadruple, for which `ProjEq` (all
+`addext_add`, `add_self_double`, `e128_dbladd_spec` conclusions) is vacuous. -/
+theorem addext_self_zero (d : R) (tw : Bool) (p : Ext R) : ecmAddext d tw p p = ⟨0, 0, 0, 0⟩ :=
+  addext_self d tw p
 
 /-- `Curve::from_point(x, y)`: `(x, y, 1)` lies on the a = +1 curve with the returned `d`. -/
 theorem from_point_on_curve (inv : R → R) (x y : R) (h1 : (1 : R) * inv 1 = 1)
@@ -344,6 +365,17 @@ example : suyamaIsValid (-3 : Int) 3 1 1 ⟨1, 1, 1⟩ := by
   simp [suyamaIsValid, suyamaIsValidSides]
 example : ∃ (inv : Int → Int) (x y : Int), (1 : Int) * inv 1 = 1 ∧ (x * y) * inv (x * y) = 1 :=
   ⟨fun _ => 1, 1, 1, by simp, by simp⟩
+
+/-- Finding witness (model level, over ℤ): on the point (1, 0, 1) of order 4 of x² + y² = 1 + 5x²y² the
+chain multiplication by 3 returns the zero triple while double-and-add returns 3P = (-1 : 0 : 1) up to
+scaling. Same behaviour of the real code (K); see the report for a witness of order 1269. -/
+theorem chainmul_degenerate_witness :
+    ((scalar64Chainmul (⟨0, 1, 1⟩ : Pt Int) (ecmToExtended 5 false) Ext.toProj (ecmDouble 5 false)
+        (ecmDblext 5 false) (ecmAddext 5 false) (ecmAddextproj 5 false) (ecmSubextproj 5 false) 3 ⟨1, 0, 1⟩).map
+        (fun p => (p.x, p.y, p.z)) = some (0, 0, 0)) ∧
+    ((scalar64MulDbladd (⟨0, 1, 1⟩ : Pt Int) (ecmAdd 5 false) (ecmDouble 5 false) 3 ⟨1, 0, 1⟩).map
+        (fun p => (p.x + p.z, p.y)) = some (0, 0)) := by
+  decide
 
 end NonVacuity
 
